@@ -155,3 +155,46 @@ Definition C02_delete_expired_overlaps_set := CX_mapof2.delete_expired_overlaps_
 Definition C02_delete_expired_overlaps_set_map := CX_map2.delete_expired_overlaps_set_map.
 Print Assumptions C02_delete_expired_overlaps_set.
 Print Assumptions C02_delete_expired_overlaps_set_map.
+
+(* ---------------------------------------------------------------------------
+   The static tie to the text of the cache layer.  gen/SrcFacts.v is produced on
+   every run by a translator (harness/srcfacts/skeleton.go) from xsync_map.go and
+   xsync_mapof.go: per public method, how often a syntactic path can perform each
+   kind of primitive outside a closure run by the map, and how often such a closure
+   can invoke a user function.  proofs/Skel.v ties the model programs to it in both
+   directions; a change of the call structure of a method breaks these statements. *)
+From CacheV.proofs Require SkelDefs Skel.
+From CacheV.gen Require SrcFacts.
+From Coq Require String.
+
+(* every path of every model program -- whatever the map, the clock and the settings answer --
+   stays within what the source of the method can do (both texts) *)
+Theorem C02_model_within_source :
+  forall (K V : Type) (eqd : forall a b : K, {a = b} + {a <> b}) (zero : V) (o : cop K V),
+    SkelDefs.is_call o ->
+    SkelDefs.within SrcFacts.budgets_map (prog_cache eqd zero) o /\
+    SkelDefs.within SrcFacts.budgets_mapof (prog_cacheof eqd zero) o.
+Proof.
+  intros K V eqd zero o H. split; [exact (Skel.cache_within_budget eqd zero o H)|exact (Skel.cacheof_within_budget eqd zero o H)].
+Qed.
+Print Assumptions C02_model_within_source.
+
+(* ... and every entry of the source's budgets is attained by a run of the model: the source makes
+   no map call, clock read, settings access or callback that the model does not know *)
+Theorem C02_source_within_model :
+  SkelDefs.unattained SrcFacts.budgets_map (prog_cache Z.eq_dec 0%Z) = [] /\
+  SkelDefs.unattained SrcFacts.budgets_mapof (prog_cacheof Z.eq_dec 0%Z) = [].
+Proof. split; [exact Skel.cache_budget_attained|exact Skel.cacheof_budget_attained]. Qed.
+Print Assumptions C02_source_within_model.
+
+(* the mechanism C02 rests on: in the source as it is now, each read-modify-write method is ONE Compute *)
+Theorem C02_rmw_is_one_map_call :
+  (Skel.single_compute SrcFacts.budgets_map = true /\ Skel.single_compute SrcFacts.budgets_mapof = true)%type.
+Proof. exact Skel.rmw_single_compute. Qed.
+Print Assumptions C02_rmw_is_one_map_call.
+
+Example C02_within_discriminates :
+  ~ SkelDefs.bounded (K := Z) (V := Z) 0 [(SrcFacts.TCompute, Some 1%nat)]
+      (MapCall (CLoad 1%Z) (fun _ => MapCall (CStore 1%Z (SkelDefs.it 1 0)) (fun _ => Ret (@CUnit Z Z)))).
+Proof. exact Skel.bounded_discriminates. Qed.
+Print Assumptions C02_within_discriminates.
